@@ -15,6 +15,12 @@ package resource
 //@ func NewSchemaless(attrs []attribute.KeyValue) (r *Resource)
 //@   modifies elems(attrs)
 //@   ensures r != nil && fresh(r) && r.schemaURL == ""
+// the set is built from the very attributes given, through the filter that keeps exactly the valid ones (key defined, value typed)
+//@   assert@call NewSetWithFiltered#1 : $arg0 === attrs && len(attrs) > 0
+//@   assert@store attrs#* : $val == s
+//@ func NewSchemaless$1(kv attribute.KeyValue) (ok bool)
+//@   prop C19
+//@   ensures ok == (kv.Key != "" && kv.Value.vtype != attribute.INVALID)
 //@ func NewWithAttributes(schemaURL string, attrs []attribute.KeyValue) (r *Resource)
 //@   modifies elems(attrs)
 //@   ensures r != nil && fresh(r) && r.schemaURL == schemaURL
@@ -84,3 +90,12 @@ package resource
 //@   ghost@call Merge#* : detPending = 0
 //@   loop#1 invariant detPending == 0 || detPending == 2
 //@   assert@return#* : detPending == 0 || detPending == 2
+
+// Environment: what the environment detector found is returned as it is - also when it reported an error (the valid pairs of a
+// partly malformed OTEL_RESOURCE_ATTRIBUTES and the service name are kept; the error goes to the handler)
+//@ func Environment() (r *Resource)
+//@   prop C19
+//@   overflow assumed
+//@   unchecked frame,no-panic detector allocation, error handler
+//@   assert@return#* : $ret0 == resource
+//@   assert@call fromEnv.Detect#1 : true
